@@ -316,12 +316,12 @@ impl Monitor for C07 {
         "C07"
     }
     fn plan(&self, cfg: &Cfg) -> u64 {
-        (18 * ns(cfg).len() * CLASSES.len()) as u64 * cfg.tier.pick(3, 4) + cfg.tier.pick(240, 2400)
+        (18 * ns(cfg).len() * CLASSES.len()) as u64 * cfg.tier.pick(3, 12) + cfg.tier.pick(240, 7200)
     }
     fn trial(&self, cfg: &Cfg, idx: u64, out: &mut TrialOut) {
         let nl = ns(cfg);
         let mut rng = Rng::for_trial(cfg.seed, "C07", idx);
-        let main = (18 * nl.len() * CLASSES.len()) as u64 * cfg.tier.pick(3, 4);
+        let main = (18 * nl.len() * CLASSES.len()) as u64 * cfg.tier.pick(3, 12);
         if idx >= main {
             // exactly linear off-grid windows at large N: a quotient of N-term sums that is +-1
             // (or sits on its bound) in exact arithmetic collects about N ulps of rounding there
